@@ -294,6 +294,23 @@ partial def runOp (hin hout : IO.FS.Stream) (j : Json) : IO Json := do
     let alg ← liftP (intField j "alg")
     let a : Cbor := if alg ≥ 0 then .uint alg.toNat else .nint (-1 - alg).toNat
     pure (Json.mkObj [("k", "accept"), ("record", dispToJson (sigDispatch kind a))])
+  | "encode_cert_info" => do
+    let g := fun k => liftP (bytesField j k)
+    let out := encodeCertInfo (← g "magic") (← g "type") (← g "qs") (← g "extra") (← g "clock")
+      (← liftP (natField j "reset")) (← liftP (natField j "restart")) (← liftP (natField j "safe")).toUInt8
+      (← g "fw") (← g "name") (← g "qname")
+    pure (Json.mkObj [("k", "accept"), ("record", Json.str (hexStr out))])
+  | "encode_pub_area" => do
+    let g := fun k => liftP (bytesField j k)
+    let kind ← liftP (strField j "kind")
+    let attrs ← liftP (natField j "attrs")
+    let out ← if kind == "rsa" then
+        pure (encodePubAreaRsa (← g "type") (← g "name_alg") attrs (← g "policy") (← g "sym") (← g "sch") (← g "key_bits")
+          (← g "exponent") (← g "modulus"))
+      else
+        pure (encodePubAreaEcc (← g "type") (← g "name_alg") attrs (← g "policy") (← g "sym") (← g "sch") (← g "crv")
+          (← g "kdf") (← g "x") (← g "y"))
+    pure (Json.mkObj [("k", "accept"), ("record", Json.str (hexStr out))])
   | "parse_cert_info" => do
     let b ← liftP (bytesField j "b")
     pure (outcomeToJson certInfoToJson (parseCertInfo b))
